@@ -16,6 +16,7 @@ import AdaptixModel.Conv.CoerceSpec
 import AdaptixProofs.Lemmas.CoerceSpecSound
 import AdaptixProofs.Lemmas.CoerceBuiltin
 import AdaptixProofs.Lemmas.CoerceWitness
+import AdaptixProofs.Lemmas.CoercePolicy
 
 namespace Adaptix.Conv.C14
 
@@ -69,14 +70,70 @@ theorem unlinked_refused (cfg : Cfg) (hrecipe : cfg.recipe = builtinRecipe)
     (sc dc : Nat) (sa da : List Ty) (sfs dfs : List Field)
     (hss : cfg.shape sc sa = some sfs) (hds : cfg.shape dc da = some dfs)
     (d : Field) (hd : d ∈ dfs) (hnone : ∀ s ∈ sfs, s.name ≠ d.name)
-    (hforbid : d.required = true ∨ cfg.policy.allowed d.name = false) (n : Nat) (c : Coercer) :
+    (hforbid : d.required = true ∨ cfg.policy.allowed dc d = false) (n : Nat) (c : Coercer) :
     provide cfg n (.cls sc sa) (.cls dc da) ≠ .ok c :=
   model_first_refuses (rest := [.iterable, .dict, .optional, .unwrap, .sameType, .dstAny, .unionSubcase, .subclass])
     (by rw [hrecipe, builtinRecipe_eq]) hss hds hd hnone hforbid n c
 
 /-- the policy closing the builtin recipe forbids unlinked optional fields -/
-theorem default_policy_forbids (name : Nat) : Policy.builtin.allowed name = false := by
+theorem default_policy_forbids (owner : Nat) (f : Field) : Policy.builtin.allowed owner f = false := by
   rfl
+
+/-- **The policy is resolved per field, first matching rule of the user recipe first**: the answer
+    to `UnlinkedOptionalPolicyRequest` for the field `f` of the class `owner` under the rules `rs`
+    (the `allow_/forbid_unlinked_optional(pred)` of the recipe, in order) is the verdict of the
+    first rule whose predicate matches *that field's* location, and the closing builtin policy's
+    when none matches.  (`RuleApplies` is stated by position, independently of the resolver.) -/
+theorem policy_first_match (rs : List PolicyRule) (owner : Nat) (f : Field) (allow : Bool) :
+    (Policy.rules rs).allowed owner f = allow ↔ PolicyVerdict owner f rs allow :=
+  resolveRules_verdict owner f rs allow
+
+/-- **A converter between two models exists exactly when every destination field is acceptable on
+    its own** (builtin recipe order, every policy, every nesting): each destination field is linked
+    to the same-name source field whose type is coercible, or has no source, is optional and the
+    policy asked about *this* field allows leaving it out.  In particular a verdict obtained for
+    one field is never reused for another. -/
+theorem model_converter_iff (cfg : Cfg) (hrecipe : cfg.recipe = builtinRecipe)
+    (sc dc : Nat) (sa da : List Ty) (sfs dfs : List Field)
+    (hss : cfg.shape sc sa = some sfs) (hds : cfg.shape dc da = some dfs) (n : Nat) :
+    (∃ c, provide cfg (n + 1) (.cls sc sa) (.cls dc da) = .ok c) ↔
+      ∀ d ∈ dfs, FieldAccepted (provide cfg n) (cfg.policy.allowed dc) sfs d :=
+  model_first_ok_iff (rest := [.iterable, .dict, .optional, .unwrap, .sameType, .dstAny, .unionSubcase, .subclass])
+    (by rw [hrecipe, builtinRecipe_eq]) hss hds n
+
+/-- **Releasing one field does not release another**: if the rule that applies to the unlinked
+    optional field `d` forbids it — or no rule of the user recipe matches `d`, so that the closing
+    builtin policy answers — no converter is produced, whatever rules allow the *other* fields and
+    wherever `d` stands in the declaration order. -/
+theorem unlinked_refused_per_field (cfg : Cfg) (hrecipe : cfg.recipe = builtinRecipe)
+    (rs : List PolicyRule) (hpol : cfg.policy = .rules rs)
+    (sc dc : Nat) (sa da : List Ty) (sfs dfs : List Field)
+    (hss : cfg.shape sc sa = some sfs) (hds : cfg.shape dc da = some dfs)
+    (d : Field) (hd : d ∈ dfs) (hnone : ∀ s ∈ sfs, s.name ≠ d.name)
+    (hforbid : (∃ r, RuleApplies dc d rs r ∧ r.allow = false) ∨ (∀ q ∈ rs, q.pred.holds dc d = false))
+    (n : Nat) (c : Coercer) :
+    provide cfg n (.cls sc sa) (.cls dc da) ≠ .ok c := by
+  refine unlinked_refused cfg hrecipe sc dc sa da sfs dfs hss hds d hd hnone (.inr ?_) n c
+  rw [hpol, policy_first_match]
+  rcases hforbid with ⟨r, hr, ha⟩ | hnone'
+  · exact .inl ⟨r, hr, ha⟩
+  · exact .inr ⟨hnone', rfl⟩
+
+/-- **The declaration order of the destination fields does not matter** for whether a converter
+    exists: two destination classes whose shapes are permutations of each other (and that the
+    policy treats alike) are accepted or refused together. -/
+theorem declaration_order_irrelevant (cfg : Cfg) (hrecipe : cfg.recipe = builtinRecipe)
+    (sc dc dc' : Nat) (sa da da' : List Ty) (sfs dfs dfs' : List Field)
+    (hss : cfg.shape sc sa = some sfs) (hds : cfg.shape dc da = some dfs)
+    (hds' : cfg.shape dc' da' = some dfs') (hperm : dfs.Perm dfs')
+    (hpol : ∀ f, cfg.policy.allowed dc f = cfg.policy.allowed dc' f) (n : Nat) :
+    (∃ c, provide cfg (n + 1) (.cls sc sa) (.cls dc da) = .ok c) ↔
+      (∃ c, provide cfg (n + 1) (.cls sc sa) (.cls dc' da') = .ok c) := by
+  rw [model_converter_iff cfg hrecipe sc dc sa da sfs dfs hss hds n,
+    model_converter_iff cfg hrecipe sc dc' sa da' sfs dfs' hss hds' n]
+  have hfun : cfg.policy.allowed dc = cfg.policy.allowed dc' := funext hpol
+  rw [hfun]
+  exact ⟨fun h d hd => h d (hperm.mem_iff.mpr hd), fun h d hd => h d (hperm.mem_iff.mp hd)⟩
 
 /-- **No implicit coercion between scalar types**: two different non-generic, non-model
     classes outside the subclass relation are refused by every recipe. -/
@@ -299,6 +356,46 @@ example : (askModel (.allowNames [0]) tBool tInt).isNotFound = true := by decide
 example : (askModel .allowAll tInt tStr).isNotFound = true := by decide
 example : (askModel .allowAll tBool tInt).run? (.obj 20 [(0, .atom 10 1)])
     = some (.obj 21 [(0, .atom 10 1), (1, .atom 9 0)]) := by rfl
+
+-- several unlinked optional fields, field-specific rules: `D3{x: int, y: int = …, z: int = …}` (class 23),
+-- `D3r` (class 24) declares `z` before `y`; the source `S{x: bool}` links only `x`
+private def polCfg (policy : Policy) : Cfg :=
+  { sub := exSub
+    shape := fun c a => if c == 20 && a.isEmpty then some [⟨0, tBool, true⟩]
+      else if c == 23 && a.isEmpty then some [⟨0, tInt, true⟩, ⟨1, tInt, false⟩, ⟨2, tStr, false⟩]
+      else if c == 24 && a.isEmpty then some [⟨0, tInt, true⟩, ⟨2, tStr, false⟩, ⟨1, tInt, false⟩] else none
+    dflt := fun _ _ => .atom 9 0
+    policy := policy
+    recipe := builtinRecipe }
+private def askPol (rs : List PolicyRule) (dc : Nat) : Answer := provide (polCfg (.rules rs)) 8 (.cls 20 []) (.cls dc [])
+private def fY : FieldPred := .names [1]
+private def fZ : FieldPred := .names [2]
+
+-- `allow_unlinked_optional(P[D3].y)`: `z` is still forbidden, in either declaration order
+example : (askPol [⟨.under 23 fY, true⟩] 23).isNotFound = true := by decide
+example : (askPol [⟨.under 24 fY, true⟩] 24).isNotFound = true := by decide
+example : (askPol [⟨.under 23 fZ, true⟩] 23).isNotFound = true := by decide
+-- both released (one call with two predicates / two calls)
+example : (askPol [⟨.or (.under 23 fY) (.under 23 fZ), true⟩] 23).kind? = some .model := by decide
+example : (askPol [⟨fZ, true⟩, ⟨fY, true⟩] 24).kind? = some .model := by decide
+-- a rule about another class does not apply
+example : (askPol [⟨.under 24 .any, true⟩] 23).isNotFound = true := by decide
+-- first match wins: forbid(z) before allow(ANY) refuses, after it is shadowed
+example : (askPol [⟨fZ, false⟩, ⟨.any, true⟩] 23).isNotFound = true := by decide
+example : (askPol [⟨.any, true⟩, ⟨fZ, false⟩] 23).kind? = some .model := by decide
+-- predicate on the field's own type: `allow_unlinked_optional(int)` releases `y: int`, not `z: str`
+example : (askPol [⟨.tyCls 9, true⟩] 23).isNotFound = true := by decide
+example : (askPol [⟨.tyCls 9, true⟩, ⟨.not fY, true⟩] 23).kind? = some .model := by decide
+example : (askPol [⟨fZ, true⟩, ⟨fY, true⟩] 24).run? (.obj 20 [(0, .atom 10 1)])
+    = some (.obj 24 [(0, .atom 10 1), (2, .atom 9 0), (1, .atom 9 0)]) := by rfl
+
+/-- `unlinked_refused_per_field` with its hypotheses discharged: `allow_unlinked_optional(P[D3].y)` applies to
+    `y` only; no rule matches `z`, the converter is refused although `y` (declared first) was released -/
+example (n : Nat) (c : Coercer) :
+    provide (polCfg (.rules [⟨.under 23 fY, true⟩])) n (.cls 20 []) (.cls 23 []) ≠ .ok c :=
+  unlinked_refused_per_field _ rfl [⟨.under 23 fY, true⟩] rfl 20 23 [] [] _ _ rfl rfl ⟨2, tStr, false⟩ (by simp)
+    (by intro s hs; simp only [List.mem_cons, List.not_mem_nil, or_false] at hs; subst hs; decide)
+    (.inr (by intro q hq; simp only [List.mem_cons, List.not_mem_nil, or_false] at hq; subst hq; decide)) n c
 
 end Examples
 
